@@ -9,6 +9,7 @@ import (
 	"go/ast"
 	"go/token"
 	"go/types"
+	"sort"
 	"strings"
 
 	"golang.org/x/tools/go/cfg"
@@ -1488,57 +1489,7 @@ func (f *FuncCFG) AtomCall(e ast.Expr, pt Point) (*ast.CallExpr, int) {
 // short-circuit structure go/cfg does not expose - independent of how the guard is spelled
 // (one condition, nested ifs, a switch).
 func (f *FuncCFG) ReturnsUnder(assign map[string]bool) map[string]bool {
-	var eval func(e ast.Expr) (val, known bool)
-	eval = func(e ast.Expr) (bool, bool) {
-		e = ast.Unparen(e)
-		if under, ok := astSubst[e]; ok {
-			return eval(under)
-		}
-		switch x := e.(type) {
-		case *ast.UnaryExpr:
-			if x.Op == token.NOT {
-				v, k := eval(x.X)
-				return !v, k
-			}
-		case *ast.BinaryExpr:
-			switch x.Op {
-			case token.LAND:
-				a, ka := eval(x.X)
-				b, kb := eval(x.Y)
-				switch {
-				case ka && !a, kb && !b:
-					return false, true
-				case ka && kb:
-					return a && b, true
-				}
-				return false, false
-			case token.LOR:
-				a, ka := eval(x.X)
-				b, kb := eval(x.Y)
-				switch {
-				case ka && a, kb && b:
-					return true, true
-				case ka && kb:
-					return a || b, true
-				}
-				return false, false
-			}
-			if rel, ok := relOf(x); ok {
-				for k, v := range assign {
-					if k == rel.String() {
-						return v, true
-					}
-					if k == negRel(rel).String() {
-						return !v, true
-					}
-				}
-			}
-		}
-		if v, ok := assign[exprKey(e)]; ok {
-			return v, true
-		}
-		return false, false
-	}
+	eval := func(e ast.Expr) (bool, bool) { return evalCond(e, assign) }
 	out := map[string]bool{}
 	seen := map[*cfg.Block]bool{}
 	var walk func(b *cfg.Block)
@@ -1596,4 +1547,183 @@ func (f *FuncCFG) IsVar(e ast.Expr, pt Point, v types.Object) bool {
 		e, pt = arg, cpt
 	}
 	return false
+}
+
+// evalCond evaluates a boolean expression under a truth assignment of atoms (keys are canonical
+// expression keys or normalised relations); known=false if an atom is not assigned.
+func evalCond(e ast.Expr, assign map[string]bool) (val, known bool) {
+	e = ast.Unparen(e)
+	if under, ok := astSubst[e]; ok {
+		return evalCond(under, assign)
+	}
+	switch x := e.(type) {
+	case *ast.UnaryExpr:
+		if x.Op == token.NOT {
+			v, k := evalCond(x.X, assign)
+			return !v, k
+		}
+	case *ast.BinaryExpr:
+		switch x.Op {
+		case token.LAND:
+			a, ka := evalCond(x.X, assign)
+			b, kb := evalCond(x.Y, assign)
+			switch {
+			case ka && !a, kb && !b:
+				return false, true
+			case ka && kb:
+				return a && b, true
+			}
+			return false, false
+		case token.LOR:
+			a, ka := evalCond(x.X, assign)
+			b, kb := evalCond(x.Y, assign)
+			switch {
+			case ka && a, kb && b:
+				return true, true
+			case ka && kb:
+				return a || b, true
+			}
+			return false, false
+		}
+		if rel, ok := relOf(x); ok {
+			for k, v := range assign {
+				if k == rel.String() {
+					return v, true
+				}
+				if k == negRel(rel).String() {
+					return !v, true
+				}
+			}
+		}
+	}
+	if v, ok := assign[exprKey(e)]; ok {
+		return v, true
+	}
+	return false, false
+}
+
+// ValuesUnder: the possible values (as canonical keys) of expression e at pt when the branches
+// decided by the truth assignment take only their decided side. Variables are followed through
+// the definitions that reach pt along such paths (tuple assignments included); lo.Cond(c, a, b)
+// is a or b when c is decided. The result is a finite set of symbolic values.
+func (f *FuncCFG) ValuesUnder(e ast.Expr, pt Point, assign map[string]bool) []string {
+	set := map[string]bool{}
+	f.valuesUnder(e, pt, assign, 5, set)
+	var out []string
+	for k := range set {
+		out = append(out, k)
+	}
+	sort.Strings(out)
+	return out
+}
+
+func (f *FuncCFG) valuesUnder(e ast.Expr, pt Point, assign map[string]bool, depth int, out map[string]bool) {
+	e = ast.Unparen(e)
+	if depth <= 0 {
+		out[exprKey(e)] = true
+		return
+	}
+	switch x := e.(type) {
+	case *ast.CallExpr:
+		if strings.HasSuffix(rawKey(x.Fun), "lo.Cond") && len(x.Args) == 3 {
+			if v, known := evalCond(x.Args[0], assign); known {
+				if v {
+					f.valuesUnder(x.Args[1], pt, assign, depth-1, out)
+				} else {
+					f.valuesUnder(x.Args[2], pt, assign, depth-1, out)
+				}
+				return
+			}
+			f.valuesUnder(x.Args[1], pt, assign, depth-1, out)
+			f.valuesUnder(x.Args[2], pt, assign, depth-1, out)
+			return
+		}
+	case *ast.BinaryExpr:
+		l, r := map[string]bool{}, map[string]bool{}
+		f.valuesUnder(x.X, pt, assign, depth-1, l)
+		f.valuesUnder(x.Y, pt, assign, depth-1, r)
+		for a := range l {
+			for b := range r {
+				out["("+a+x.Op.String()+b+")"] = true
+			}
+		}
+		return
+	case *ast.UnaryExpr:
+		in := map[string]bool{}
+		f.valuesUnder(x.X, pt, assign, depth-1, in)
+		for a := range in {
+			out[x.Op.String()+a] = true
+		}
+		return
+	case *ast.Ident:
+		obj, _ := f.Info.Uses[x].(*types.Var)
+		if obj == nil {
+			break
+		}
+		// forward walk over decided paths, tracking the latest definition of obj
+		type state struct {
+			b   *cfg.Block
+			def ast.Expr
+		}
+		seen := map[state]bool{}
+		found := false
+		var walk func(b *cfg.Block, i int, def ast.Expr)
+		walk = func(b *cfg.Block, i int, def ast.Expr) {
+			if !b.Live {
+				return
+			}
+			if i == 0 {
+				if seen[state{b, def}] {
+					return
+				}
+				seen[state{b, def}] = true
+			}
+			for ; i < len(b.Nodes); i++ {
+				if f.At(Point{b, i}, pt) {
+					found = true
+					if def == nil {
+						out[x.Name] = true
+					} else {
+						f.valuesUnder(def, Point{b, i}, assign, depth-1, out)
+					}
+					return
+				}
+				switch st := b.Nodes[i].(type) {
+				case *ast.AssignStmt:
+					for li, l := range st.Lhs {
+						if objOfIdentRaw(f.Info, l) == obj && len(st.Lhs) == len(st.Rhs) {
+							def = st.Rhs[li]
+						}
+					}
+				case *ast.ValueSpec:
+					for ni, nm := range st.Names {
+						if f.Info.Defs[nm] == obj && ni < len(st.Values) {
+							def = st.Values[ni]
+						}
+					}
+				}
+			}
+			if c := condOf(b); c != nil {
+				if tag, ok := caseTagOf[c]; ok {
+					c = &ast.BinaryExpr{X: tag, Op: token.EQL, Y: c}
+				}
+				if v, known := evalCond(c, assign); known {
+					if v {
+						walk(b.Succs[0], 0, def)
+					} else {
+						walk(b.Succs[1], 0, def)
+					}
+					return
+				}
+			}
+			for _, sc := range b.Succs {
+				walk(sc, 0, def)
+			}
+		}
+		walk(f.G.Blocks[0], 0, nil)
+		if found {
+			return
+		}
+	}
+	out[exprKey(e)] = true
 }
